@@ -635,20 +635,21 @@ structure Clean (done : List PSchema) (fs : FileSt) : Prop where
 
 /-- one schema visited after all its suppliers: it is printed (if it has anything to print) with suffix 0, completely, and
     the state stays clean -/
-theorem visitSchema_clean (done : List PSchema) (fs : FileSt) (p : PSchema) (hcl : Clean done fs) (wf : WellFormed p)
+theorem visitSchema_clean (d : Bool) (done : List PSchema) (fs : FileSt) (p : PSchema) (hcl : Clean done fs) (wf : WellFormed p)
     (hun : fs.unprocessed p.name = true)
     (hdep : ∀ n, isForeign p.os n = true → ∃ q ∈ done, ∃ o ∈ q.own, o.name = n)
     (hnames : ∀ q ∈ done, q.name ≠ p.name) :
-    Clean (done ++ [p]) (visitSchema .untilSettledOrStalled .inSchemaOrProcessed fs p) ∧
-    (∀ n, n ≠ p.name → (visitSchema .untilSettledOrStalled .inSchemaOrProcessed fs p).unprocessed n = fs.unprocessed n) := by
+    Clean (done ++ [p]) (visitSchema d .untilSettledOrStalled .inSchemaOrProcessed fs p) ∧
+    (∀ n, n ≠ p.name → (visitSchema d .untilSettledOrStalled .inSchemaOrProcessed fs p).unprocessed n = fs.unprocessed n) := by
   have hfd : FDone p.os fs.marks := by
     intro n hn
     obtain ⟨q, hq, o, ho, e⟩ := hdep n hn
     rw [← e]; exact hcl.processed q hq o ho
   obtain ⟨s, hs, hnc, hsu, hdec, hkeep⟩ := passResult_ready p fs.marks wf hcl.nocant hfd
-  have ev : visitSchema .untilSettledOrStalled .inSchemaOrProcessed fs p = finishVisit fs p s := by
+  have ev : visitSchema d .untilSettledOrStalled .inSchemaOrProcessed fs p = finishVisit fs p s := by
     unfold visitSchema
     rw [if_neg (by rw [hun, hcl.nothung]; decide), unsetObjs_id p fs.marks hcl.nocant, hs]
+    simp only [hsu, Bool.and_false, Bool.false_and, Bool.false_eq_true, if_false]
   rw [ev]
   have hsuf : (if s.schemaUnprocessed || fs.counter p.name > 0 then fs.counter p.name + 1 else 0) = 0 := by
     rw [hsu, hcl.counters p.name]; simp
@@ -708,14 +709,14 @@ def InDependencyOrder : List PSchema → List PSchema → Prop
     WellFormed p ∧ (∀ n, isForeign p.os n = true → ∃ q ∈ done, ∃ o ∈ q.own, o.name = n) ∧
     (∀ q ∈ done, q.name ≠ p.name) ∧ (∀ q ∈ rest, q.name ≠ p.name) ∧ InDependencyOrder (done ++ [p]) rest
 
-theorem round_clean (done todo : List PSchema) (fs : FileSt) (hcl : Clean done fs) (hord : InDependencyOrder done todo)
+theorem round_clean (d : Bool) (done todo : List PSchema) (fs : FileSt) (hcl : Clean done fs) (hord : InDependencyOrder done todo)
     (hun : ∀ q ∈ todo, fs.unprocessed q.name = true) :
-    Clean (done ++ todo) (todo.foldl (visitSchema .untilSettledOrStalled .inSchemaOrProcessed) fs) := by
+    Clean (done ++ todo) (todo.foldl (visitSchema d .untilSettledOrStalled .inSchemaOrProcessed) fs) := by
   induction todo generalizing done fs with
   | nil => simpa using hcl
   | cons p rest ih =>
     obtain ⟨wf, hdep, hn1, hn2, hrest⟩ := hord
-    have st := visitSchema_clean done fs p hcl wf (hun p List.mem_cons_self) hdep hn1
+    have st := visitSchema_clean d done fs p hcl wf (hun p List.mem_cons_self) hdep hn1
     simp only [List.foldl_cons]
     have := ih (done ++ [p]) _ st.1 hrest (fun q hq => by
       rw [st.2 q.name (hn2 q hq)]; exact hun q (List.mem_cons_of_mem _ hq))
